@@ -1,10 +1,16 @@
 #!/bin/bash
-# Build the framework from files on disk only (offline).
-set -e
+# Build the framework from files on disk only (offline).  Each ./check rebuilds
+# what it needs under a lock, so a failure of one proof file here must not stop
+# the others from being built: make -k, and report.
 cd "$(dirname "$0")/.."
 export PYTHONPATH=/repo PYTHONHASHSEED=0
-/venv/bin/python py/gen_coq.py || true
+/venv/bin/python py/gen_coq.py || echo "setup: translator reported a problem (checks will report it)"
 cd coq
-coq_makefile -f _CoqProject $(find theories -name '*.v' | sort) -o Makefile > /dev/null
-find theories -name '*.v' | sort | sed 's#^\./##' | tr '\n' '\n' > /dev/null
-timeout 3000 make -j16
+find theories -name '*.v' | sort > .vfiles.tmp
+coq_makefile -f _CoqProject $(cat .vfiles.tmp) -o Makefile > /dev/null
+rm -f .vfiles.tmp .vfiles
+timeout 3000 make -k -j16 > setup_build.log 2>&1
+rc=$?
+tail -5 setup_build.log
+echo "setup: make exit $rc (non-zero means some proof file did not build; the affected check will report it)"
+exit 0
